@@ -122,7 +122,7 @@ def place(rng, mesh):
 
 
 def gen_pipe(rng, tier):
-    n = 40 if tier == 'quick' else 280
+    n = 100 if tier == 'quick' else 500
     ops = []
     for it in range(n):
         mesh, h = sg.grid(rng)
@@ -282,7 +282,7 @@ def argv_variants(rng, c):
 
 def gen_argv(rng, tier):
     ops = []
-    reps = 1 if tier == 'quick' else 5
+    reps = 2 if tier == 'quick' else 8
     for rep in range(reps):
         meshes = []
         for _ in range(4):
